@@ -224,6 +224,36 @@ def _coord(kind, n, rng, base=0):
     raise KeyError(kind)
 
 
+def deductive_history(res, agg):
+    """labels of the fitted scores do not change when other data is transformed in between (real chain, structural proxies)"""
+    from vf.contracts.prep import trace_chain
+    fn = "Preprocessor.inverse_transform_scores (after transform of other data)"
+    for name, kw in (("1 sample dim", {}), ("2 sample dims", dict(sample=("time", "run"), feature=("lat",))), ("sample MultiIndex", dict(multiindex=("time",)))):
+        try:
+            paths = trace_chain(**kw)
+        except PathLimit as e:
+            res.undecided_reasons.append(f"{fn}[{name}]: {e}")
+            continue
+        res.paths += len(paths)
+        nret = 0
+        for pth in paths:
+            if pth.kind == "unsupported":
+                agg.vc(fn, "within-supported-subset", {"status": "undecided", "residue": f"{pth.exc} {pth.tb[-3:]}"}, name)
+                continue
+            if pth.kind != "return":
+                continue
+            nret += 1
+            v = pth.value
+            fs, un, X = v["fitscores"], v["unseen"], v["X"]
+            sd = [d for d in X.dims if d in fs.dims]
+            ok = bool(sd) and all("Xnew." not in str(fs._coords[d].cid) and f"X.{d}" in str(fs._coords[d].cid) for d in sd)
+            agg.vc(fn, "the fitted data's scores keep the fitted data's own sample labels", struct_vc(ok, str({d: str(fs._coords[d].cid) for d in sd})), name)
+            ok2 = all("Xnew." in str(un._coords[d].cid) for d in sd if d in un._coords)
+            agg.vc(fn, "and the other data's scores carry the other data's labels", struct_vc(ok2, str({d: str(c.cid) for d, c in un._coords.items()})), name)
+        if nret == 0:
+            agg.vc(fn, "has-returning-path", struct_vc(False, "vacuity guard"), name)
+
+
 def _build(c, rng):
     sizes = {"s1": 5, "s2": 2, "s3": 2, "f1": 3, "f2": 2, "f3": 2}
     sd = [f"s{i + 1}" for i in range(c["ns"])]
@@ -360,6 +390,20 @@ def bounded_cases(tier, seed):
 
 
 def run_bounded(res, tier, seed):
+    for i, (smp, n_other) in enumerate((("two-dims", 6), ("two-dims", 4), ("multiindex", 6), ("multiindex", 9))):
+        c = dict(kind="history", sample=smp, n_other=n_other, seed=int(seed) * 77 + i)
+        try:
+            ok, detail = eval_history(c)
+        except Exception as e:  # noqa: BLE001
+            ok, detail = False, f"{type(e).__name__}: {str(e)[:150]}"
+        res.case("C02.labels-after-transform", {"sample": smp, "same_count": n_other == 6}, ok, detail, payload=c)
+    for i, (cont, how) in enumerate((("da", "reversed-lat"), ("da", "shuffled-lon"), ("ds", "reversed-lat"), ("ds", "shuffled-lon"))):
+        c = dict(kind="permuted-transform", container=cont, how=how, seed=int(seed) * 91 + i)
+        try:
+            ok, detail = eval_permuted_transform(c)
+        except Exception as e:  # noqa: BLE001
+            ok, detail = False, f"{type(e).__name__}: {str(e)[:150]}"
+        res.case("C02.transform-with-reordered-feature-labels", {"container": cont, "how": how}, ok, detail, payload=c)
     for c in bounded_cases(tier, seed):
         sig = {k: c.get(k) for k in ("container", "level", "multiindex", "extra_coord")}
         sig["multi_sample_dims"] = c["ns"] > 1
@@ -376,7 +420,55 @@ def run_bounded(res, tier, seed):
         res.case("C02.structure-round-trip", sig, ok, detail, payload=c)
 
 
+def eval_history(c):
+    """fit, transform other data, then ask for the fitted scores: they still carry the fitted data's sample labels"""
+    rng = np.random.default_rng(c["seed"])
+    if c["sample"] == "two-dims":
+        mk = lambda off, n1: xr.DataArray(rng.standard_normal((n1, 3, 4)), dims=("t", "run", "x"),
+                                          coords={"t": np.arange(n1) + off, "run": ["a", "b", "c"], "x": np.arange(4)})
+        X, other, sd = mk(0, 6), mk(100, c["n_other"]), ("t", "run")
+    else:
+        def mk(off, n1):
+            d = xr.DataArray(rng.standard_normal((n1 * 2, 4)), dims=("s", "x"), coords={"yr": ("s", np.repeat(np.arange(n1) + off, 2)), "half": ("s", np.tile([1, 2], n1)), "x": np.arange(4)})
+            return d.set_index(s=("yr", "half"))
+        X, other, sd = mk(2000, 6), mk(3000, c["n_other"]), ("s",)
+    m = xeofs.single.EOF(n_modes=2, solver="full").fit(X, sd)
+    before = m.scores()
+    m.transform(other)
+    after = m.scores()
+    msgs = []
+    for d in sd:
+        if not after.indexes[d].equals(before.indexes[d]) or not after.indexes[d].equals(X.indexes[d]):
+            msgs.append(f"after transforming other data the fitted scores carry other labels along {d}: {list(after.indexes[d][:3])} vs {list(X.indexes[d][:3])}")
+    if not msgs and real.relerr(after.transpose(*before.dims).values, before.values) > 1e-12:
+        msgs.append("after transforming other data the fitted scores changed")
+    return (not msgs), "; ".join(msgs)
+
+
+def eval_permuted_transform(c):
+    """transform data whose feature labels are the fitted ones in another order: refused, or mapped by label"""
+    rng = np.random.default_rng(c["seed"])
+    X = real.da3(rng.standard_normal((12, 12)), 3)
+    Xd = xr.Dataset({"a": X, "b": X.isel(lon=slice(0, 2)) * 2.0}) if c["container"] == "ds" else X
+    m = xeofs.single.EOF(n_modes=2, solver="full").fit(Xd, "time")
+    ref = m.transform(Xd)
+    Xp = Xd.isel(lat=slice(None, None, -1)) if c["how"] == "reversed-lat" else Xd.isel(lon=[2, 0, 3, 1] if c["container"] == "da" else [1, 0, 2, 3])
+    try:
+        got = m.transform(Xp)
+    except ValueError:
+        return True, ""
+    if real.relerr(got.transpose(*ref.dims).values, ref.values) > 1e-10:
+        return False, f"transform of the same data with re-ordered feature labels ({c['how']}) was accepted and gives other scores (rel {real.relerr(got.transpose(*ref.dims).values, ref.values):.2e})"
+    return True, ""
+
+
 def replay(payload):
+    if payload["payload"].get("kind") == "permuted-transform":
+        ok, detail = eval_permuted_transform(payload["payload"])
+        return ok, f"C02 replay {payload['payload']}: {'ok' if ok else detail}"
+    if payload["payload"].get("kind") == "history":
+        ok, detail = eval_history(payload["payload"])
+        return ok, f"C02 replay {payload['payload']}: {'ok' if ok else detail}"
     ok, detail = eval_case(payload["payload"])
     return ok, f"C02 replay {payload['payload']}: {'ok' if ok else detail}"
 
@@ -394,6 +486,7 @@ def run(tier, seed):
     res.trusted = ["CPython on proxies", "vf/sym/ldom.py", "z3 (NRA for the value identity)"]
     agg = Agg(res, "C02")
     deductive(res, agg)
+    deductive_history(res, agg)
     agg.flush()
     run_bounded(res, tier, seed)
     return res
